@@ -33,13 +33,13 @@ CFG = dict(
         "appendable layer (property C17): only the explicit flushes (sync(), Close) are modelled for the tx log and the "
         "commit log; flushes caused by write-buffer overflow or chunk rotation and the physical leftovers of the AHT's own "
         "logs after ResetSize are not (scripts that would depend on them are not generated: small FileSize only without "
-        "external commit allowance; no reopen after a Discard followed by a new precommit, except in the directed scripts; "
+        "external commit allowance; under external allowance no reopen after a Discard followed by a new precommit, except in the "
+        "directed scripts; "
         "a replicated tx with BlTxID = 0 is not sent while cLogBuf is full)",
         "the AHT is the list of appended Alh values with RootAt(n) = mth of the first n (its hashing/addressing is property "
         "C08); executable SHA-256 of coq/Merkle/Sha256.v (Uint63 under vm_compute) only to run the model; theorems are "
         "about an abstract hash H, no collision assumption is needed by any C02 theorem",
-        "inputs of the model steps taken as given: precondition outcome (index not modelled), the clock, the BlRoot left "
-        "in the pooled tx holder (used by performPrecommit when blTxID = 0); value offsets are compared only for "
+        "inputs of the model steps taken as given: precondition outcome (index not modelled), the clock; value offsets are compared only for "
         "MaxIOConcurrency = 1; PrevAlh/Eh/BlRoot/value digests are compared through the Alh that commits to them; "
         "NOT modelled: indexing, value-log truncation (C14), crash recovery (C03), ExportTx/TxReader readers (ReadTx, "
         "ReadValue, CommittedAlh are), preallocated-file binary search of the commit log (exercised, not modelled)",
@@ -49,8 +49,9 @@ CFG = dict(
         "commit-log entries appended by a commit loop that stops midway stay in the write buffer until the next rewind "
         "(true for the defaults: 4 MB buffer vs 1000 x 44 B, 512 MB chunks). NOT true with a small FileSize: chunk rotation "
         "flushes them, SetOffset never truncates the file (property C17), and a later reopen counts them as committed: "
-        "corpus/C02/stale-clog-tail-small-filesize.json replays a real-store execution (synced, external allowance, FileSize "
-        "256) after which tx 5's PrevAlh is not the Alh of tx 4 -- outside the model, reported to the lead, not a known finding",
+        "the falsifier-only scenario staleClogTail (harness/c02/c02.go; also corpus/C02/stale-clog-tail-small-filesize.json) runs a "
+        "real-store execution (synced, external allowance, FileSize 256) after which tx 5's PrevAlh is not the Alh of tx 4: "
+        "reported on every run as a KNOWN-FINDING (harness level: the model does not contain the appendable layer)",
     ],
 )
 
